@@ -57,6 +57,13 @@ func c11(c *q.Ctx) {
 		c.Gate(vp, "ACLValidatorFactory.GetACLValidator", q.ToSuccess(), q.Opt{K1Only: true})
 		c.ArgIs(vp, "ACLValidator.Validate", 0, "ptree.GetPermTreeList(p0)#0[#down]", 1, "nodes are evaluated leaves first (reverse BFS order)")
 		node := "ptree.GetPermTreeList(p0)#0[#down]"
+		// a member whose own rule is not satisfied merely contributes nothing: it is marked failed and the evaluation
+		// goes on with the next node (monotonicity: adding a signer never turns acceptance into rejection)
+		c.StaysInLoop(vp, q.Cond{Canon: "i:ACLValidator.Validate(*)#0", Sense: false}, q.Cond{Canon: "!(#down(ptree.GetPermTreeList(p0)#0) < 0)"}, "a node that fails its rule does not abort the evaluation")
+		c.Then(vp, q.Target{Name: "a validator verdict", Instr: func(i ssa.Instruction) bool {
+			ci, ok := i.(ssa.CallInstruction)
+			return ok && q.Callee(ci.Common()).Match("ACLValidator.Validate")
+		}}, q.ToFieldStore("PermNode.Status"), q.ToAnyReturn(), []q.Cond{{Canon: "(i:ACLValidator.Validate(*)#1 == nil)", Sense: false}}, "every evaluated node gets a status (success or failed) unless the validator itself failed")
 		if len(c.P.Notes) > 0 { // analysed without the normalising transforms: the verdict is still a merged boolean
 			c.FieldStoreUnder(vp, "PermNode.Status", "2", []q.Cond{{Canon: "phi{*Validate(*)#0*}", Sense: true}}, "a node succeeds only if its own evaluation answered true")
 		} else {
